@@ -13,6 +13,12 @@ CHECKS = {
          "(mapping, parents, attributes) is judged by the declarative survivor sets of spec/Subtree.tla; the code's mark-propagate-renumber "
          "algorithm is model-checked against the same sets (MC_SubtreeAlg, termination included); larger random trees are judged by the same module",
     design="4/C06", technique="TLA+ spec (Subtree.tla) + TLC exhaustive small-scope generation, replay into the code, TLC-judged observations; algorithm layer model-checked"),
+ "C08": dict(
+    text="Decomp.tla defines branches, paths, tips, furcations and the branch tree declaratively; TLC checks on every topology up to the bound that they "
+         "satisfy the decomposition statement (edge partition, branch ends, one path per tip) and that the code's post-order accumulator with stem "
+         "closure (MC_Decomp) computes exactly them, and that the accumulator without stem closure is rejected; every enumerated topology is replayed "
+         "into get_branches/get_paths/get_tips/get_furcations/Node.branch/BranchTree.from_tree/ToBranchTree/ToLongestPath and judged by TLC",
+    design="4/C08", technique="TLA+ spec (Decomp.tla) + TLC exhaustive small-scope generation, replay into the code, TLC-judged observations; algorithm layer model-checked"),
 }
 
 NA_REASON = {}
